@@ -9618,7 +9618,7 @@ def _write_node(node, xml_tree=None, viewport_transform=None):
             xml_tree.set(SVG_ATTR_RADIUS_X, str(node.rx))
         if node.ry:
             xml_tree.set(SVG_ATTR_RADIUS_Y, str(node.ry))
-    elif isinstance(node, Circle):
+    elif isinstance(node, Circle) and node.rx == node.ry:
         xml_tree = subxml(xml_tree, SVG_TAG_CIRCLE)
         if node.cx:
             xml_tree.set(SVG_ATTR_CENTER_X, str(node.cx))
@@ -9626,6 +9626,18 @@ def _write_node(node, xml_tree=None, viewport_transform=None):
             xml_tree.set(SVG_ATTR_CENTER_Y, str(node.cy))
         if node.rx:
             xml_tree.set(SVG_ATTR_RADIUS, str(node.rx))
+    elif isinstance(node, Circle):
+        # A circle reified under a non-uniform scale has two radii: it is written as an ellipse.
+        xml_tree = subxml(xml_tree, SVG_TAG_ELLIPSE)
+        xml_tree.attrib.pop(SVG_ATTR_RADIUS, None)
+        if node.cx:
+            xml_tree.set(SVG_ATTR_CENTER_X, str(node.cx))
+        if node.cy:
+            xml_tree.set(SVG_ATTR_CENTER_Y, str(node.cy))
+        if node.rx:
+            xml_tree.set(SVG_ATTR_RADIUS_X, str(node.rx))
+        if node.ry:
+            xml_tree.set(SVG_ATTR_RADIUS_Y, str(node.ry))
     elif isinstance(node, Image):
         xml_tree = subxml(xml_tree, SVG_TAG_IMAGE)
         from base64 import b64encode
